@@ -240,6 +240,12 @@ class UUID:
         # it wasn't set already
         for uuid in self.UUIDS:
             if self == uuid:
+                if len(uuid.uuid_bytes) != len(self.uuid_bytes):
+                    # Same value in another width: keep our own width (it is what
+                    # was on the wire), just borrow the name.
+                    if self.name is None:
+                        self.name = uuid.name
+                    continue
                 if uuid.name is None:
                     uuid.name = self.name
                 return uuid
